@@ -33,3 +33,54 @@ TEXT = {
         "technique": _T + "; differential against std to_le_bytes/to_be_bytes, values unconstrained",
     },
 }
+
+TEXT.update({
+    "C01": {
+        "level": "One inductive step per derivation operation (subslice/get_slice, offset, split_at, get_ref, get_array_ref, ref_at, aligned_as_ref/mut, get_atomic_ref, as_volatile_slice, array<->slice conversions, ByteValued::from_slice/from_mut_slice) from an ARBITRARY valid parent (every window of a 32-byte buffer) with all request arguments unconstrained usize: Ok iff the exact arithmetic condition, child extent == request and inside the parent, error variant as documented; Kani's own pointer checks flag any ptr.add/deref outside the parent at the line in /repo that does it. Chains of any depth follow by induction.",
+        "design_ref": "DESIGN.md §4 C01",
+        "note": "parents <= 32 bytes; element types u8..u128,[u8;3],[u16;2],Le32; atomic 1/2/4/8; ref_at index assumed in range (documented panic)",
+        "technique": _T + "; symbolic parent window + unconstrained 64-bit request arguments, iff-oracle in exact arithmetic",
+    },
+    "C04": {
+        "level": "Every accessor kind of a volatile slice (buffer read/write, slice forms, write_obj/read_obj, typed refs, element arrays, copy_to/copy_from, slice-to-slice copy, atomic store/load) executed once from an arbitrary memory state on an arbitrary window of a 16-byte buffer with unconstrained offsets: returned count/err variant equal the byte-array model, and a symbolic byte index compares every byte of the container (frame included) with the model.",
+        "design_ref": "DESIGN.md §4 C04",
+        "note": "container <= 16 bytes, transfers <= 12 bytes (both sides of the 8-byte threshold), element arrays <= 4 elements",
+        "technique": _T + "; differential against a flat byte-array model, symbolic index stands for all bytes",
+    },
+    "C05": {
+        "level": "Soundness of dirty marks at slice level: the container carries a recording bitmap behind the crate's real BaseSlice at a symbolic root offset; for every write-type accessor of C04 every byte that differs from the pre-state and every byte reported written must be covered by a mark that reached the root. Page arithmetic of the real AtomicBitmap (which pages a byte range dirties) is decided by the C09 harnesses.",
+        "design_ref": "DESIGN.md §4 C05/C16",
+        "note": "Recorder bitmap is harness code (logs mark_dirty); region- and guest-level composition see level_note of C03",
+        "technique": _T + "; recording Bitmap behind the real BaseSlice, diff-driven oracle",
+    },
+    "C06": {
+        "level": "The sequence of primitive accesses the code issues is made observable by Kani stubs of core::ptr::read_volatile/write_volatile and atomic_load/atomic_store inside the unmodified crate; for every length 0..=8 and every (guest address mod 8, local address mod 8): accesses tile the range once, ascending, naturally aligned, and an aligned 1/2/4/8-byte transfer is exactly ONE access of that width; store/load issue exactly one atomic access and refuse misaligned addresses.",
+        "design_ref": "DESIGN.md §4 C06",
+        "note": "decides the access sequence issued by the code, not code generation or hardware atomicity (the 'schedules' half follows from one aligned access <= 8 bytes being single-copy atomic - outside the claim)",
+        "technique": _T + "; access-trace stubs of std volatile/atomic primitives",
+    },
+    "C09": {
+        "level": "AtomicBitmap vs a set-of-pages model on a grid of concrete (page size, byte size) incl. 0/1/2/10/64/65/129 pages and page sizes 1,3,7,4096: from a pre-state with three symbolic pages set, one operation (set/reset range, set/reset bit, get_and_reset, reset, clone, enlarge, mark/dirty_at through slices of depth 1-2) with unconstrained 64-bit arguments, then read-out at a symbolic page index and byte address.",
+        "design_ref": "DESIGN.md §4 C09",
+        "note": "container shapes (page size, size) are grid points; quick tier restricts ranges on the 64+-page bitmaps to <= 3 pages (start anywhere), thorough lifts that",
+        "technique": _T + "; differential against a set model, symbolic read-out index",
+    },
+    "C16": {
+        "level": "Precision of dirty marks at slice level (same recording bitmap as C05): every mark lies inside the n bytes reported written at the accessor's offset; reads, loads, derivations and requests rejected before any byte moved record nothing. Page granularity (exactly the overlapping pages, len-1 arithmetic) is decided by the C09 set_range harnesses on the real AtomicBitmap.",
+        "design_ref": "DESIGN.md §4 C05/C16",
+        "note": "all-or-error forms failing with PartialBuffer have written - and may mark - exactly the completed prefix",
+        "technique": _T + "; recording Bitmap behind the real BaseSlice",
+    },
+    "C17": {
+        "level": "(a) standard build: ptr_guard()/ptr_guard_mut() of slices, typed refs and element arrays report len() == bytes covered and as_ptr() == first byte for every element type, offset and element count.",
+        "design_ref": "DESIGN.md §4 C17",
+        "note": "Xen on-demand half (b) is added by the xen harness crate when built",
+        "technique": _T + "; symbolic parent, offset, element count",
+    },
+    "C18": {
+        "level": "Zero-length accesses at slice level: empty buffers and zero-sized objects at ANY usize address return Ok(0)/Ok(()), zero-count stream transfers and copies of zero-sized elements succeed, nothing panics, no byte changes, nothing is marked (recording bitmap).",
+        "design_ref": "DESIGN.md §4 C18",
+        "note": "region and guest-memory level are separate harness groups",
+        "technique": _T + "; unconstrained addresses, recording bitmap, Kani panic checks",
+    },
+})
